@@ -9,7 +9,8 @@ RULE = ("correspondence: generated add/double/neg/multiply/is_on_curve of the fo
         "real functions on G1, G2 (twist curve) and the degree-12 curve — subgroup points, points outside the subgroup, infinity, "
         "P=Q, P=-Q, scalars 0,1,2,3,r-1,r,r+1,2p-r,random up to 640 bits, random projective representatives; twist; "
         "predicates: group laws on the real modules vs an independent affine oracle (pure ints), reference vs optimized")
-EXTRA_MODULES = {"Props.TieHashCurve": "PyEcc.Tie."}
+EXTRA_MODULES = {"Props.TieHashCurve": "PyEcc.Tie.", "Props.TieFieldsFq": "PyEcc.Tie.", "Props.TieFieldsFqp": "PyEcc.Tie.", "Props.TieFieldsMul": "PyEcc.Tie.", "Props.TieFieldsPoly": "PyEcc.Tie.", "Props.TieFieldsInv": "PyEcc.Tie."}
+
 HYPOTHESES = []
 NOT_YET_PROVED = []
 ASSUMPTIONS = []
@@ -37,6 +38,21 @@ def _points(rng, g, tier):
         g1 = next(x for x in curve_groups() if x.mod == g.mod and x.grp == "G1")
         pts.append(O.aff_add(g.gen, cast12(g1.gen, g)))
     return pts
+
+
+def base_diff_pair(g, rng):
+    """two points (x1, y1), (x2, y2) of the curve over Fp2 with x1 - x2 in Fp (same imaginary part) — generally outside the subgroup"""
+    p = g.b.p
+    im = rng.randrange(1, p)
+    out = []
+    a = rng.randrange(p)
+    while len(out) < 2:
+        a = (a + 1) % p
+        x = O.Fp2(a, im, p)
+        y = (x * x * x + g.b).sqrt()
+        if y is not None:
+            out.append((x, y))
+    return out[0], out[1]
 
 
 def cases(rng, tier):
@@ -218,6 +234,13 @@ def predicates(rng, tier, only=None):
     ps = [Pred("constants", constants_pred, ())]
     n = 2 if tier == "quick" else 10
     for gi, g in enumerate(curve_groups()):
+        if g.grp == "G12":
+            # points of E(Fp12) all of whose coordinates lie in the base field (cast_point_to_fq12 of G1 points): every slope
+            # denominator is a base-field-valued degree-12 element — in all four modules, also in the quick tier
+            g1 = next(x for x in curve_groups() if x.mod == g.mod and x.grp == "G1")
+            c1, c2 = cast12(g1.gen, g), cast12(O.aff_mul(g1.gen, 2), g)
+            one3 = tuple(g.b.like(1) for _ in range(3))
+            ps.append(Pred("group-laws", group_pred, (gi, c1, c2, c1, 2, 3, one3)))
         if g.grp == "G12" and (tier == "quick" and not (g.mod == "OptBls")):
             continue
         pts = _points(rng, g, tier)
@@ -233,6 +256,13 @@ def predicates(rng, tier, only=None):
             k = rng.choice([3, g.order - 1, g.order + 1, rng.randrange(1 << 300)]) if big else rng.randrange(2, 9)
             sc = tuple((rand_scale(rng, g.b) if g.grp != "G12" else g.b.like(rng.randrange(1, 99))) for _ in range(3))
             ps.append(Pred("group-laws", group_pred, (gi, P, Q, R, m, k, sc)))
+        if g.grp == "G2":
+            # two points of the twist curve whose x-coordinates differ by an element of the BASE field (and a point whose y lies in
+            # the base field): the slope denominators x2 - x1 / 2y are then base-field-valued extension elements
+            A, B = base_diff_pair(g, rng)
+            sc1 = tuple(rand_scale(rng, g.b) for _ in range(3))
+            ps.append(Pred("group-laws", group_pred, (gi, A, B, g.gen, 1, 2, sc1)))
+            ps.append(Pred("group-laws", group_pred, (gi, B, O.aff_neg(A), A, 2, 3, sc1)))
         if g.grp != "G12":
             ps.append(Pred("subgroup-order", subgroup_pred, (gi, rng.randrange(1, g.order), rng.randrange(1 << 640))))
         if g.grp == "G2":
